@@ -282,6 +282,25 @@ CLAIMS = {
          'neutralise them); the assembly used by the harness is validated against the '
          'real _create_exec_script on import.',
     design='4/C10'),
+ 'C11': dict(
+    text='Bounded symbolic execution of the real staging code against a recording '
+         'back end: directive form (string short forms with > >> < << or dictionary), '
+         'source and target over tables of relative / absolute / every sandbox schema, '
+         'action (all six), task outcome, stage_on_error and the failing back-end call '
+         'are solver variables.  Checked: expansion (expand_staging_directives), URL '
+         'resolution (complete_url under the four components\' real context '
+         'dictionaries), exactly one operation of the right kind on the resolved URLs '
+         'per directive by exactly one of tmgr/agent staging_input, agent/tmgr '
+         'staging_output and StagingHelper.handle_staging_directive; no output '
+         'operation for a failed task without stage_on_error; a failing operation '
+         'fails its task only; the local back end (copy/link/move on an in-memory file '
+         'system) fails on a missing source; the Session sandbox getters are stable '
+         'under any order of look-ups.',
+    note='Partial: the Python side only - bytes on disk, cp -r / SAGA semantics are '
+         'outside (recorder / in-memory file system).  Known finding (TARBALL '
+         'directives are never unpacked on the agent) is excluded by region and '
+         'printed as KNOWN-FINDING.  Bounds: <= 2 directives per task, 2 tasks per bulk.',
+    design='4/C11'),
 }
 
 NOT_YET = 'check not built yet in this session (see DESIGN.md section 4 for the plan)'
